@@ -17,6 +17,8 @@ Section P.
   Notation op_init := (op_init frepr loads_b).
   Notation op_remove := (op_remove frepr).
   Notation op_rekey := (op_rekey frepr loads_b).
+  Notation op_rekey_id := (op_rekey_id frepr loads_b).
+  Notation rekey_core := (rekey_core frepr loads_b).
   Notation update_in_memory := (update_in_memory frepr loads_s).
   Notation update_cache_gen := (update_cache_gen frepr loads_s).
   Notation update_cache := (update_cache frepr loads_s).
@@ -30,6 +32,8 @@ Section P.
   Notation open_pre := (open_pre frepr loads_b).
   Notation open_pres := (open_pres frepr loads_b).
   Notation handle_sp := (handle_sp frepr loads_b).
+  Notation cached_by_id := (cached_by_id frepr loads_s).
+  Notation cached_all := (cached_all frepr loads_s).
 
   (* ================================================================ A. soundness of the caches *)
   Definition sound (c : cache) : Prop := forall i v, In (i, v) c -> cid v = i.
@@ -154,16 +158,15 @@ Section P.
     - destruct e; inversion E; subst; (eapply (Inv_ws_only f' f'); [exact (proj2 H)|apply ws_only_refl|auto]).
   Qed.
 
-  Theorem inv_rekey : forall f s old new f' s' r, Inv f s -> op_rekey f s old new = (f', s', r) -> Inv f' s'.
+  Lemma inv_rekey_core : forall f s0 oi new f' s' r,
+    file_sound f -> sound (s_cache s0) -> rekey_core f s0 oi new = (f', s', r) -> Inv f' s'.
   Proof.
-    intros f s old new f' s' r H E. unfold Cache.op_rekey in E.
-    pose proof (ensure_read_sound f s H) as H1.
-    set (s0 := ensure_read f s) in *.
-    set (oi := Cache.cid frepr old) in *. set (ni := Cache.cid frepr new) in *.
+    intros f s0 oi new f' s' r Hfs H1 E. unfold Cache.rekey_core in E.
+    set (ni := Cache.cid frepr new) in *.
     destruct (is_objb new); simpl in E;
-      [|inversion E; subst; eapply (Inv_ws_only f' f'); [exact (proj2 H)|apply ws_only_refl|auto]].
+      [|inversion E; subst; eapply (Inv_ws_only f' f'); [exact Hfs|apply ws_only_refl|auto]].
     destruct (str_eqb oi ni).
-    { inversion E; subst. eapply (Inv_ws_only f' f'); [exact (proj2 H)|apply ws_only_refl|].
+    { inversion E; subst. eapply (Inv_ws_only f' f'); [exact Hfs|apply ws_only_refl|].
       apply sound_reg; auto. }
     (* the common tail *)
     assert (POST : forall (g : fs) (b : bool) (f' : fs) (s' : sess) (r : result unit), ws_only f g ->
@@ -186,14 +189,14 @@ Section P.
       destruct (match unlink g (spt ni) with FOk g' => FOk g' | FErr ENOENT => FOk g | FErr e => FErr e end) as [g1|e] eqn:Eu.
       - specialize (Hu g1 eq_refl). destruct b.
         + destruct (jinit false g1 s0 new) as [[g2 s3] [u|e]] eqn:Ej; inversion E2; subst.
-          * eapply (Inv_ws_only f f2); [exact (proj2 H)| |].
+          * eapply (Inv_ws_only f f2); [exact Hfs| |].
             -- eapply ws_only_trans; [exact Hu|]. eapply jinit_ws_only; eauto.
             -- apply sound_reg; auto. eapply jinit_sound; eauto.
-          * eapply (Inv_ws_only f f2); [exact (proj2 H)| |].
+          * eapply (Inv_ws_only f f2); [exact Hfs| |].
             -- eapply ws_only_trans; [exact Hu|]. eapply jinit_ws_only; eauto.
             -- eapply jinit_sound; eauto.
-        + inversion E2; subst. eapply (Inv_ws_only f f2); [exact (proj2 H)|exact Hu|]. apply sound_reg; auto.
-      - inversion E2; subst. eapply (Inv_ws_only f f2); [exact (proj2 H)|exact Wg|auto]. }
+        + inversion E2; subst. eapply (Inv_ws_only f f2); [exact Hfs|exact Hu|]. apply sound_reg; auto.
+      - inversion E2; subst. eapply (Inv_ws_only f f2); [exact Hfs|exact Wg|auto]. }
     destruct (rename f (spf oi) (spt oi)) as [f1|e] eqn:E1.
     - assert (W1 : ws_only f f1) by (eapply rename_ws_only; eauto; reflexivity).
       destruct (rename f1 (jdir oi) (jdir ni)) as [f2|e2] eqn:E2.
@@ -202,12 +205,29 @@ Section P.
         * assert (W3 : ws_only f f3).
           { eapply ws_only_trans; [exact W1|]. eapply rename_ws_only; eauto; reflexivity. }
           destruct (dest_exists_errno e2).
-          -- inversion E; subst. eapply (Inv_ws_only f f'); [exact (proj2 H)|exact W3|auto].
-          -- destruct e2; try (inversion E; subst; eapply (Inv_ws_only f f'); [exact (proj2 H)|exact W3|auto]).
+          -- inversion E; subst. eapply (Inv_ws_only f f'); [exact Hfs|exact W3|auto].
+          -- destruct e2; try (inversion E; subst; eapply (Inv_ws_only f f'); [exact Hfs|exact W3|auto]).
              eapply (POST f3 false); [exact W3|exact E].
-        * inversion E; subst. eapply (Inv_ws_only f f'); [exact (proj2 H)|exact W1|auto].
-    - destruct e; try (inversion E; subst; eapply (Inv_ws_only f' f'); [exact (proj2 H)|apply ws_only_refl|auto]).
+        * inversion E; subst. eapply (Inv_ws_only f f'); [exact Hfs|exact W1|auto].
+    - destruct e; try (inversion E; subst; eapply (Inv_ws_only f' f'); [exact Hfs|apply ws_only_refl|auto]).
       eapply (POST f false); [apply ws_only_refl|exact E].
+  Qed.
+
+  Theorem inv_rekey : forall f s old new f' s' r, Inv f s -> op_rekey f s old new = (f', s', r) -> Inv f' s'.
+  Proof.
+    intros f s old new f' s' r H E. unfold Cache.op_rekey in E.
+    eapply inv_rekey_core; [exact (proj2 H)|apply ensure_read_sound; exact H|exact E].
+  Qed.
+
+  Theorem inv_rekey_id : forall f s i new f' s' r, Inv f s -> op_rekey_id f s i new = (f', s', r) -> Inv f' s'.
+  Proof.
+    intros f s i new f' s' r H E. unfold Cache.op_rekey_id, Cache.open_id in E.
+    pose proof (ensure_read_sound f s H) as H1.
+    destruct (alookup i (s_cache (ensure_read f s))).
+    - eapply inv_rekey_core; [exact (proj2 H)|exact H1|exact E].
+    - destruct (Cache.resolve_id f i) as [m|e].
+      + eapply inv_rekey_core; [exact (proj2 H)|exact H1|exact E].
+      + inversion E; subst. split; [exact H1|exact (proj2 H)].
   Qed.
 
   (* ---- update_cache *)
@@ -813,6 +833,102 @@ Section P.
       eapply IH; [split; [exact H1|exact (proj2 H)]|exact E2].
   Qed.
 
+  Lemma cached_by_id_sound : forall f s i s' r, Inv f s -> cached_by_id f s i = (s', r) -> sound (s_cache s').
+  Proof.
+    intros f s i s' r H E. unfold Cache.cached_by_id, Cache.open_id in E.
+    pose proof (ensure_read_sound f s H) as H1.
+    assert (HI1 : Inv f (ensure_read f s)) by (split; [exact H1|exact (proj2 H)]).
+    destruct (alookup i (s_cache (ensure_read f s))) as [sp|]; [inversion E; subst; exact H1|].
+    destruct (Cache.resolve_id f i) as [m|e]; [|inversion E; subst; exact H1].
+    destruct (alookup m (s_cache (ensure_read f s))) as [x|]; [inversion E; subst; exact H1|].
+    eapply get_statepoint_sound; [exact HI1|exact E].
+  Qed.
+
+  Lemma cached_all_sound : forall f ids s s' l, Inv f s -> cached_all f s ids = (s', l) -> sound (s_cache s').
+  Proof.
+    induction ids as [|i r IH]; simpl; intros s s' l H E.
+    - inversion E; subst. exact (proj1 H).
+    - destruct (cached_by_id f s i) as [s1 x] eqn:E1.
+      pose proof (cached_by_id_sound _ _ _ _ _ H E1) as H1.
+      destruct (cached_all f s1 r) as [s2 l2] eqn:E2. inversion E; subst.
+      eapply IH; [split; [exact H1|exact (proj2 H)]|exact E2].
+  Qed.
+
+  (* ---- cached_statepoint of a handle reached by id (open_job(id=..) or iteration) *)
+  Theorem cached_by_id_never_wrong : forall f s i s' sp,
+    Inv f s -> cached_by_id f s i = (s', Ok sp) ->
+    exists m, (m = i \/ resolve_id f i = Ok m) /\ cid sp = m.
+  Proof.
+    intros f s i s' sp H E. unfold Cache.cached_by_id, Cache.open_id in E.
+    pose proof (ensure_read_sound f s H) as H1.
+    destruct (alookup i (s_cache (ensure_read f s))) as [x|] eqn:El.
+    - inversion E; subst. exists i. split; auto. apply alookup_In in El. apply H1 in El. exact El.
+    - destruct (Cache.resolve_id f i) as [m|e] eqn:Er; [|inversion E].
+      exists m. split; auto.
+      destruct (alookup m (s_cache (ensure_read f s))) as [x|] eqn:Em.
+      + inversion E; subst. apply alookup_In in Em. apply H1 in Em. exact Em.
+      + unfold Cache.get_statepoint in E.
+        destruct (alookup m (s_cache (ensure_read f (ensure_read f s)))) as [y|] eqn:Ey.
+        * inversion E; subst. apply alookup_In in Ey.
+          assert (HI1 : Inv f (ensure_read f s)) by (split; [exact H1|exact (proj2 H)]).
+          apply (ensure_read_sound f _ HI1) in Ey. exact Ey.
+        * destruct (sp_from_ws f true m) eqn:Ew; cbv iota in E; inversion E; subst. eapply sp_from_ws_valid; eauto.
+  Qed.
+
+  Lemma cached_by_id_ref : forall f s i,
+    Agr f s -> ws_intact f -> In i (listing f) ->
+    exists s' v w, cached_by_id f s i = (s', Ok v) /\ wsv f i = Some w /\ norm v = norm w /\ Agr f s'.
+  Proof.
+    intros f s i HA Hw Hi.
+    destruct (ws_intact_wsv f i Hw Hi) as [c [w [G [Ls [Lb [Hid [Ho Hv]]]]]]].
+    pose proof (ensure_read_agrees f s HA) as H1.
+    assert (HA1 : Agr f (ensure_read f s)) by (split; [exact H1|exact (proj2 HA)]).
+    unfold Cache.cached_by_id, Cache.open_id.
+    destruct (alookup i (s_cache (ensure_read f s))) as [sp|] eqn:El.
+    - exists (ensure_read f s), sp, w. split; [reflexivity|]. split; [exact Hv|].
+      split; [apply alookup_In in El; eapply H1; eauto|exact HA1].
+    - destruct (listed_exists f i Hi) as [Hex [Hlen Hm]].
+      assert (Er : resolve_id f i = Ok i).
+      { unfold Cache.resolve_id, Cache.contains_id.
+        assert (Hl : Nat.ltb (length i) 32 = false) by (apply Nat.ltb_ge; exact Hlen).
+        rewrite Hl, Hm, Hex. reflexivity. }
+      rewrite Er, El.
+      destruct (get_statepoint_ref f (ensure_read f s) i HA1 Hw Hi) as [s' [v [w' [E [Hv' [Hn HA']]]]]].
+      rewrite E. exists s', v, w'. auto.
+  Qed.
+
+  Lemma cached_all_ref : forall f ids s,
+    Agr f s -> ws_intact f -> (forall i, In i ids -> In i (listing f)) ->
+    exists s' l, cached_all f s ids = (s', l) /\
+      Forall2 (fun p i => fst p = i /\ exists v w, snd p = Ok v /\ wsv f i = Some w /\ norm v = norm w) l ids.
+  Proof.
+    induction ids as [|i r IH]; intros s HA Hw Hsub; simpl.
+    - exists s, []. split; [reflexivity|constructor].
+    - destruct (cached_by_id_ref f s i HA Hw (Hsub i (or_introl eq_refl))) as [s1 [v [w [E [Hv [Hn HA1]]]]]].
+      rewrite E. destruct (IH s1 HA1 Hw (fun j Hj => Hsub j (or_intror Hj))) as [s2 [l [E2 F2]]].
+      rewrite E2. exists s2, ((i, Ok v) :: l). split; [reflexivity|]. constructor; auto. simpl. split; eauto.
+  Qed.
+
+  (* cached_statepoint of every listed job, through any session with sound caches on the file system WITH the
+     cache file, equals (up to key order) what a fresh session WITHOUT it shows *)
+  Theorem cached_transparent : forall f s ids,
+    Inv f s -> ws_intact f -> coll_free f (map snd (s_cache s) ++ file_vals f) ->
+    (forall i, In i ids -> In i (listing f)) ->
+    Forall2 (fun x y => fst x = fst y /\ res_equiv (snd x) (snd y))
+      (snd (cached_all f s ids)) (snd (cached_all (without_cache f) fresh ids)).
+  Proof.
+    intros f s ids HI Hw Hc Hsub.
+    pose proof (Inv_Agr f s HI Hw Hc) as HA.
+    destruct (cached_all_ref f ids s HA Hw Hsub) as [s1 [l1 [E1 F1]]].
+    assert (Hsub0 : forall i, In i ids -> In i (listing (without_cache f))).
+    { intros i Hi. unfold Cache.listing. rewrite listing_without_cache. apply Hsub. exact Hi. }
+    destruct (cached_all_ref (without_cache f) ids fresh (Agr_fresh_without f) (ws_intact_without f Hw) Hsub0)
+      as [s2 [l2 [E2 F2]]].
+    rewrite E1, E2. simpl. eapply Forall2_common; [|exact F1|exact F2].
+    intros x y i [Hx [v [w [Ex [Ew En]]]]] [Hy [v' [w' [Ey [Ew' En']]]]]. split; [congruence|].
+    rewrite Ex, Ey. simpl. rewrite wsv_without in Ew'. rewrite Ew in Ew'. inversion Ew'; subst. congruence.
+  Qed.
+
   (* ---- transparency of opening by abbreviated id *)
   Definition pre_equiv (a b : result (str * result json)) : Prop :=
     match a, b with
@@ -1056,6 +1172,21 @@ Section HOLDS.
   Notation ls := (ls8 c).
   Notation lb := (lb8 c).
 
+  Lemma plant1_ws_only : forall f u, ws_only f (plant c f u).
+  Proof.
+    intros f u q Hq. unfold plant. destruct (exists_ f (jdir (calc_id fr u))); [reflexivity|].
+    rewrite !get_cons_entry by discriminate.
+    assert (E1 : path_eqb q (spf (calc_id fr u)) = false) by (apply path_eqb_neq, not_under_neq; auto; apply under_WS_cons).
+    assert (E2 : path_eqb q (jdir (calc_id fr u)) = false) by (apply path_eqb_neq, not_under_neq; auto; apply under_WS_cons).
+    rewrite E1, E2. reflexivity.
+  Qed.
+
+  Lemma plant_ws_only : forall us f, ws_only f (fold_left (plant c) us f).
+  Proof.
+    induction us as [|u us IH]; intro f; simpl; [apply ws_only_refl|].
+    eapply ws_only_trans; [apply plant1_ws_only|apply IH].
+  Qed.
+
   Lemma mstep_inv : forall f s o f' s' r, Inv fr f s -> mstep c (f, s) o = ((f', s'), r) -> Inv fr f' s'.
   Proof.
     intros f s o f' s' r H E. destruct o; simpl in E.
@@ -1070,12 +1201,20 @@ Section HOLDS.
     - destruct (unlink f CACHEP) as [f1|e] eqn:E1; inversion E; subst; auto. eapply inv_delcache; eauto.
     - unfold xobserve in E. pose proof (observe_sound fr ls lb f s (ev8 c) H) as H1.
       destruct (observe fr ls lb f s (ev8 c)) as [s1 ob] eqn:E1. simpl in H1.
-      destruct (open_pres fr lb f s1 (c8_pres c)) as [s2 pre] eqn:E2. inversion E; subst.
-      split; [|exact (proj2 H)]. eapply open_pres_sound; [|exact E2]. split; [exact H1|exact (proj2 H)].
+      destruct (open_pres fr lb f s1 (c8_pres c)) as [s2 pre] eqn:E2.
+      assert (H2 : Inv fr f s2).
+      { split; [|exact (proj2 H)]. eapply open_pres_sound; [|exact E2]. split; [exact H1|exact (proj2 H)]. }
+      destruct (cached_all fr ls f s2 (listing f)) as [s3 cached] eqn:E3.
+      assert (H3 : Inv fr f s3) by (split; [eapply cached_all_sound; eauto|exact (proj2 H)]).
+      destruct (open_all fr lb f s3 (filter (fun u => negb (str_mem u (listing f))) (c8_uids c))) as [s4 uo] eqn:E4.
+      inversion E; subst. split; [eapply open_all_sound; [exact H3|exact E4]|exact (proj2 H)].
     - inversion E; subst. clear E.
       destruct (isdir f (jdir (cid8 c a)) && negb (exists_ f (jdir (cid8 c b)))); auto.
       destruct (rename f (jdir (cid8 c a)) (jdir (cid8 c b))) as [f1|e] eqn:E1; auto.
       eapply Inv_ws_only; [exact (proj2 H)| |exact (proj1 H)]. eapply rename_ws_only; eauto; reflexivity.
+    - destruct (op_rekey_id fr lb f s (cid8 c old) new) as [[f1 s1] r1] eqn:E1. inversion E; subst. eapply inv_rekey_id; eauto.
+    - inversion E; subst. eapply Inv_ws_only; [exact (proj2 H)|apply plant_ws_only|exact (proj1 H)].
+    - inversion E; subst. exact H.
   Qed.
 
   Lemma cache_le_sound : forall x y, sound fr x -> cache_le y x = true -> sound_b c y = true.
